@@ -176,6 +176,57 @@ const fn zigzag_decode_i128(value: u128) -> i128 {
     ((value >> 1) as i128) ^ (-((value & 1) as i128))
 }
 
+/// Public wrappers around the private varint / zig-zag helpers for the
+/// compile-time witness kept under `/verif` (built with
+/// `--cfg qbice_verif` only; never part of a normal build).
+#[cfg(qbice_verif)]
+#[doc(hidden)]
+#[allow(missing_docs, clippy::must_use_candidate)]
+pub mod verif_hooks {
+    pub const MAX_VARINT_U16_BYTES: usize = super::MAX_VARINT_U16_BYTES;
+    pub const MAX_VARINT_U32_BYTES: usize = super::MAX_VARINT_U32_BYTES;
+    pub const MAX_VARINT_U64_BYTES: usize = super::MAX_VARINT_U64_BYTES;
+    pub const MAX_VARINT_U128_BYTES: usize = super::MAX_VARINT_U128_BYTES;
+
+    pub const fn encode_varint_u16(
+        v: u16,
+        buf: &mut [u8; MAX_VARINT_U16_BYTES],
+    ) -> usize {
+        super::encode_varint_u16(v, buf)
+    }
+    pub const fn encode_varint_u32(
+        v: u32,
+        buf: &mut [u8; MAX_VARINT_U32_BYTES],
+    ) -> usize {
+        super::encode_varint_u32(v, buf)
+    }
+    pub const fn encode_varint_u64(
+        v: u64,
+        buf: &mut [u8; MAX_VARINT_U64_BYTES],
+    ) -> usize {
+        super::encode_varint_u64(v, buf)
+    }
+    pub const fn encode_varint_u128(
+        v: u128,
+        buf: &mut [u8; MAX_VARINT_U128_BYTES],
+    ) -> usize {
+        super::encode_varint_u128(v, buf)
+    }
+
+    pub const fn zigzag_encode_i16(v: i16) -> u16 { super::zigzag_encode_i16(v) }
+    pub const fn zigzag_encode_i32(v: i32) -> u32 { super::zigzag_encode_i32(v) }
+    pub const fn zigzag_encode_i64(v: i64) -> u64 { super::zigzag_encode_i64(v) }
+    pub const fn zigzag_encode_i128(v: i128) -> u128 {
+        super::zigzag_encode_i128(v)
+    }
+    pub const fn zigzag_decode_i16(v: u16) -> i16 { super::zigzag_decode_i16(v) }
+    pub const fn zigzag_decode_i32(v: u32) -> i32 { super::zigzag_decode_i32(v) }
+    pub const fn zigzag_decode_i64(v: u64) -> i64 { super::zigzag_decode_i64(v) }
+    pub const fn zigzag_decode_i128(v: u128) -> i128 {
+        super::zigzag_decode_i128(v)
+    }
+}
+
 // =============================================================================
 // PostcardEncoder
 // =============================================================================
